@@ -90,10 +90,25 @@ def gen_history(rng, hid):
             run(2500)
             both(dgrams=[_dg(_resp([(host, 1, 0x8001, ttl_host, dnsgen.rd_bytes(bytes([192, 168, 1, 78])))]))])
             run(1500)
+        def foreign():
+            # the same host announces a service of a type we do not browse: the response is
+            # "not for us" but renews the host's address (and nothing else) in the cache
+            oinst = [b"Other", b"_unbrowsed", b"_tcp", b"local"]
+            both(dgrams=[_dg(_resp([([b"_unbrowsed", b"_tcp", b"local"], 12, 1, 4500, dnsgen.rd_ptr(oinst)),
+                                    (oinst, 33, 0x8001, 120, dnsgen.rd_srv(0, 0, 9, host)),
+                                    (oinst, 16, 0x8001, 4500, dnsgen.rd_bytes(b"\x00")),
+                                    full[3]]))])
         if scenario == "renew":
             both(dgrams=[_dg(_resp(full))])
-            run(rng.choice([500, 1500]))
-            both(dgrams=[_dg(_resp(full))])
+            # gaps that do not land on the 80/85/90/95 % marks of the earlier copy
+            run(rng.choice([370, 500, 1130, 1500, 1930]))
+            if rng.random() < 0.5:
+                both(dgrams=[_dg(_resp(full))])
+            else:
+                foreign()
+        elif scenario in ("browse", "mixed") and rng.random() < 0.35:
+            run(rng.choice([370, 1130, 1930]))
+            foreign()
         if scenario == "verify":
             both(calls=[{"op": "verify", "name": dnsgen.dotted(inst).decode(), "timeout": rng.choice([1500, 3000])}])
         if rng.random() < 0.3:
@@ -127,7 +142,14 @@ def gen_history(rng, hid):
             full = [svc["name"].encode()] + ty
             q = dnsgen.Packet(compress=True)
             q.question(full, 255)
-            q.rr(2, full, 33, 1, 120, dnsgen.rd_srv(0, 0, 65535, [b"zzzz", b"local"]))
+            if rng.random() < 0.5:
+                q.rr(2, full, 33, 1, 120, dnsgen.rd_srv(0, 0, 65535, [b"zzzz", b"local"]))
+            else:
+                # the competitor proposes exactly our records plus one more: every compared pair is
+                # equal and the tiebreak is lost on the number of records
+                q.rr(2, full, 16, 1, 4500, dnsgen.rd_bytes(b"\x03k=v"))
+                q.rr(2, full, 33, 1, 120, dnsgen.rd_srv(0, 0, 80, [b"wdreg", b"local"]))
+                q.rr(2, full, 33, 1, 120, dnsgen.rd_srv(0, 0, 81, [b"zzzz", b"local"]))
             v4 = ifaces is not IFACES_V6
             both(dgrams=[{"if": 2, "v4": v4, "src": "192.168.1.88:5353" if v4 else "[fe80::88]:5353", "hex": q.finish(flags=0).hex()}])
             run(2600)
@@ -140,7 +162,7 @@ def gen_history(rng, hid):
 
 
 def generate(rng, tier):
-    n = 80 if tier == "quick" else 1500
+    n = 120 if tier == "quick" else 1500
     return [Case(gen_history(rng, "wd%d" % i), "wakediff") for i in range(n)]
 
 
